@@ -289,6 +289,10 @@ pub fn resolve_text(t: &Text, len: usize, cap: usize) -> String {
             let u = if unit.is_ascii() { *unit } else { 'x' };
             std::iter::repeat_n(u, n).collect()
         }
+        Text::FillAll { unit } => {
+            let u = if unit.is_ascii() { *unit } else { 'x' };
+            std::iter::repeat_n(u, cap.saturating_sub(len).min(64 << 20)).collect()
+        }
         Text::Repeat { n, unit } => std::iter::repeat_n(*unit, (*n).min(64 << 20)).collect(),
     }
 }
